@@ -72,6 +72,10 @@ CHECKS = {
    text="Explicit-state search over leader histories x follower join point x persistence ticks x leader-loss point: the follower node's core comes from the real persistence::restore under the configuration the orchestrator's command line produces (Config::new(Some(Args{--follower..})) with only the data directory in the environment), it flushes where run_in_follower_mode flushes, is stopped by the shutdown sequence and restored in --leader mode from the same directory; the promoted core must hold every user key the follower had received, minus the grave goods and plus the last wills of all clients connected to the old leader (including those registered before the join).",
    note="Component level; JSON persistence; election and process management are C19's subject.",
    technique="explicit-state model checking over the real leader/follower/restore code (fail-over at every quiescent point of every bounded history)"),
+ "C15": dict(cat="model_checking", engine="wbmc-core/graph", ref="DESIGN.md §3 C15",
+   text="Part 1: exhaustive over all (grant, requested pattern) pairs over {a,b,?,#} up to depth 4/5: where auth::pattern_matches claims containment, every key the real server returns for the request must be covered by the grant under the documented relation. Part 2: explicit-state search over request sequences (all request kinds x keys/patterns) of a session on a server that requires authorization, for 10 tokens (none, five grant sets, expired, forged, unsupported algorithm, garbage; real HS256 tokens): nothing is served before a valid token; a served request only returns/changes/removes keys (answer, store difference, unrestricted internal observer) covered by a grant of its privilege; a refused request has no effect.",
+   note="Only soundness (served => covered) is asserted; token expiry uses the wall clock with expiry times decades away.",
+   technique="exhaustive enumeration of pattern pairs + explicit-state model checking of sessions on the real protocol handler with authorization on"),
 }
 
 NOT_YET = {}
